@@ -23,6 +23,7 @@ type BadRow struct {
 }
 
 type CaseC09 struct {
+	vt.Env
 	Feed    *sgen.Feed
 	Bad     []BadRow
 	Inherit bool
@@ -304,6 +305,7 @@ func propC09(t *rapid.T) {
 		}
 	}
 	c := CaseC09{Feed: f, Bad: bad, Inherit: rapid.Bool().Draw(t, "inherit")}
+	c.Env = genEnv(t)
 	c09Rec.Eval(dedupe(classes)...)
 	if c09Nontrivial(ts, bad) {
 		c09Rec.NontrivialCase(vt.Fingerprint(c), func() any {
